@@ -216,6 +216,88 @@ def run_contended(rp, choices, final_state='FAILED'):
     return [t.state for t in ts], errs
 
 
+def run_submit_race(rp, choices, final_state='FAILED'):
+    """the final state of a pilot arrives (real _pilot_state_cb on the pilot update thread) while the application
+    thread is inside the REAL TaskManager.submit_tasks with two new tasks bound to pilots by their descriptions (as
+    pilot.submit_tasks binds them).  Scheduling points: the tasks lock, the hand-over of the bulk to the scheduler
+    (`advance(..., TMGR_SCHEDULING_PENDING)`: before and after it) and the start of the callback.  Returns the order
+    of events ('handed' = the bulk reached the scheduler, 'final' = the callback starts), and state / explanation of
+    the tasks afterwards."""
+    import coop
+    tm = stubs.make_tmgr(rp)
+    tm._tasks_lock = TimedCoopRLock()
+    tm._known_uids = set()
+    old = [stubs.make_task(rp, tm, 'task.000000', 'AGENT_EXECUTING', pilot='pilot.0000'),
+           stubs.make_task(rp, tm, 'task.000002', 'AGENT_EXECUTING', pilot='pilot.0001')]
+    events, errs, new = [], [], []
+    rec = tm.advance
+    def advance(things, state=None, publish=True, push=False, **kw):
+        if state == 'TMGR_SCHEDULING_PENDING':
+            coop.point('hand-over')
+            events.append('handed')
+            rec(things, state, publish, push)
+            coop.point('handed-over')
+        else:
+            rec(things, state, publish, push)
+    tm.advance = advance
+    ctl = coop.Controller()
+    try:
+        def submit():
+            try:
+                tds = [rp.TaskDescription({'executable': '/bin/true', 'uid': 'task.000010', 'pilot': 'pilot.0000'}),
+                       rp.TaskDescription({'executable': '/bin/true', 'uid': 'task.000011', 'pilot': 'pilot.0001'})]
+                new.extend(tm.submit_tasks(tds))
+            except Exception as e: errs.append('submit:' + type(e).__name__)
+        def final():
+            events.append('final')
+            try: tm._pilot_state_cb(PilotStub(0, final_state))
+            except Exception as e: errs.append('final:' + type(e).__name__)
+        ctl.spawn('submit', submit, run_to_first_point=False)
+        ctl.spawn('final', final, run_to_first_point=False)
+        for c in list(choices) + ['submit'] * 8 + ['final'] * 8:
+            if all(w.done for w in ctl.workers.values()): break
+            if not ctl.workers[c].done: ctl.grant(c)
+    finally:
+        ctl.close()
+    view = {t.uid: (t.state, str(t.exception_detail)) for t in old + new}
+    return events, view, errs
+
+
+def submit_race_monitor(events, view, errs, fs):
+    bad = []
+    if errs or len(view) != 4:
+        bad.append(('submission:raised-or-incomplete', '%s, tasks %s' % (errs, sorted(view))))
+        return bad
+    for uid in ('task.000000', 'task.000010'):
+        st, det = view[uid]
+        # a new task counts as the pilot's when it had reached the scheduler before the pilot's end was delivered
+        if uid == 'task.000010' and not ('handed' in events and events.index('handed') < events.index('final')):
+            continue
+        if st != 'FAILED' or 'pilot.0000' not in det:
+            bad.append(('submission:task-handed-to-the-scheduler-before-the-pilot-ended-is-not-failed' if uid == 'task.000010'
+                        else 'submission:dead-pilot-keeps-its-tasks',
+                        '%s (bound to pilot.0000, which ended %s) is %s (%s); order of events: %s' % (uid, fs, st, det, events)))
+    for uid in ('task.000002', 'task.000011'):
+        if view[uid][0] == 'FAILED':
+            bad.append(('submission:bystander-failed', '%s is bound to pilot.0001 and was failed' % uid))
+    return bad
+
+
+def submit_race_part(ctx, rp):
+    import itertools
+    n, seen = 0, set()
+    for k in range(0, 7):
+        for choices in itertools.product(['submit', 'final'], repeat=k):
+            for fs in (['FAILED'] if k > 3 else ['FAILED', 'DONE', 'CANCELED']):
+                events, view, errs = run_submit_race(rp, choices, fs)
+                n += 1
+                ctx.case({'submit_race': list(choices), 'final': fs}, nontrivial=events[:1] == ['handed'])
+                for sig, what in submit_race_monitor(events, view, errs, fs):
+                    ctx.fail(sig, what, {'submit_race': {'choices': list(choices), 'final': fs}}, observed=view)
+    ctx.obligation('a pilot ends while the real submit_tasks hands new tasks bound to it to the scheduler: all schedules of the two '
+                   'threads up to 6 steps (%d runs)' % n, 'tie', True, '')
+
+
 def contended_part(ctx, rp):
     import itertools
     n = 0
@@ -331,6 +413,7 @@ def run(ctx):
     chain_part(ctx, rp)
     added_part(ctx, rp)
     contended_part(ctx, rp)
+    submit_race_part(ctx, rp)
     tsts = [s for s in rp.states._task_state_values if s is not None]
     psts = [s for s in rp.states._pilot_state_values if s is not None]
     cases = list(CORPUS)
@@ -412,6 +495,11 @@ def replay(ctx, data):
                 if j in dead and (ts != 'FAILED' or 'pilot.%04d' % j not in str(det)): ok = False
                 if j not in dead and ts != ('TMGR_STAGING_INPUT_PENDING' if j in start else 'AGENT_EXECUTING'): ok = False
         return ok
+    if 'submit_race' in inp:
+        events, view, errs = run_submit_race(rp, inp['submit_race']['choices'], inp['submit_race']['final'])
+        bad = submit_race_monitor(events, view, errs, inp['submit_race']['final'])
+        print(events, view, errs); print(bad)
+        return not bad
     if 'contended' in inp:
         states, errs = run_contended(rp, inp['contended']['choices'], inp['contended']['final'])
         print('observed:', states, errs)
